@@ -573,3 +573,55 @@ def bool_conditions(B, site_bb):
         elif vals == (1,) or vals == ("not", (0,)):
             out[show(sym)] = True
     return out
+
+
+def implied_conditions(B, site_bb, depth=2):
+    """dominating_conditions(site_bb), plus what a named boolean among them stands for: when the site is reached only with
+    the local `ok` true, and `ok` is assigned the constant true in exactly one place (and other constants elsewhere),
+    the conditions dominating that assignment held as well (`let ok = match vm.run() { Ok(()) => true, Err(e) => { ..; false } }`);
+    when it is assigned no constant true but the value of one expression, that expression was true where it was evaluated
+    (`let m = !a.is_empty() || b.is_some()` being false)."""
+    out = []
+    work = [(c, depth) for c in dominating_conditions(B, site_bb)]
+    seen = set()
+    while work:
+        (sym, vals, dty), d = work.pop(0)
+        key = (show(sym), vals)
+        if key in seen:
+            continue
+        seen.add(key)
+        out.append((sym, vals, dty))
+        if dty != "bool" or d <= 0:
+            continue
+        want = True if (vals == (1,) or vals == ("not", (0,))) else (False if (vals == (0,) or vals == ("not", (1,))) else None)
+        if want is None:
+            continue
+        s = sym
+        while s[0] == "un" and s[1] == "Not":
+            s, want = s[2], not want
+        while s[0] in ("ref", "deref"):
+            s = s[1]
+        if s[0] not in ("var", "tmp"):
+            continue
+        l = s[2] if s[0] == "var" else s[1]
+        same, other, exprs = [], [], []
+        for (bi, si, node) in B.defs().get(l, []):
+            if si == "term":
+                t = node if isinstance(node, dict) and node.get("k") == "call" else B.blocks[bi]["term"]
+                if t.get("k") != "call":
+                    exprs.append((bi, None))
+                    continue
+                exprs.append((bi, ("call", t.get("callee") or t.get("decl"), tuple(B.sym_op(a, through_vars=True) for a in t["args"]), (bi,))))
+                continue
+            rv = node["rv"]
+            if rv["k"] == "use" and rv["a"]["k"] == "const" and isinstance(rv["a"].get("val"), bool):
+                (same if rv["a"]["val"] == want else other).append(bi)
+            else:
+                exprs.append((bi, B.sym_rv(rv, through_vars=True)))
+        if len(same) == 1 and not exprs:
+            work += [(c, d - 1) for c in dominating_conditions(B, same[0])]
+        elif not same and len(exprs) == 1 and exprs[0][1] is not None:
+            bi, sy = exprs[0]
+            work.append(((sy, (1,) if want else (0,), "bool"), d - 1))
+            work += [(c, d - 1) for c in dominating_conditions(B, bi)]
+    return out
